@@ -461,6 +461,37 @@ example : goodReply .v10 ⟨101, farbody, []⟩ = true := by decide +kernel
 example : (bufStep .v10 [] farbody).2 = some (101, farbody) := by decide +kernel
 example : (bufStepHead 80 .v10 [] farbody).2 = none := by decide +kernel
 
+/-! ## each version's read loop treats the other version's end-of-message marker as data -/
+
+/-- `v11_ignores_v10_marker`: under 1.1 the end-of-message test is the `##` line and nothing else
+(first conjunct, by definition), and the hypotheses on a 1.1 reply say nothing about `]]>]]>`: a
+complete 1.1 reply is filed whole under its id by one iteration whatever it contains — a comment,
+attribute value, CDATA section or processing instruction with `]]>]]>` in it included (see the
+instance below). Symmetrically 1.0 does not look for `##` lines. -/
+theorem v11_ignores_v10_marker (r : Reply) (hr : goodReply .v11 r = true) (b : Bytes) :
+    delimMatch .v11 b = match11From true b ∧
+      delimMatch .v10 b = isInfix delim10 b ∧
+      bufStep .v11 [] (r.body ++ r.tail) = ([], some (r.to, r.body ++ r.tail)) := by
+  refine ⟨rfl, rfl, ?_⟩
+  have h := bufStep_reply (lf := []) (a := r.tail) hr (by rfl) [] (by simp) [] (r.body ++ r.tail) (by simp)
+  simpa using h
+
+/-- regenerated syntactic fact: `(*Driver).read` mentions each version's delimiter only inside the
+`case` of that version (the 1.1 path never looks for `]]>]]>`, the 1.0 path never for `##`) -/
+theorem read_loop_uses_each_delimiter_for_its_own_version_only :
+    Gen.C08ReadLoop.delimiterUsesOutsideOwnVersionCase = [] := by decide
+
+/-- instances: a 1.1 reply with `]]>]]>` inside a comment, a 1.0 reply with a `##` line: both are
+inside the hypotheses and both are filed whole; the variant that cuts a 1.1 buffer at the first
+`]]>]]>` files nothing -/
+def r11x : Bytes := [10, 35, 53, 56, 10, 60, 114, 112, 99, 45, 114, 101, 112, 108, 121, 32, 109, 101, 115, 115, 97, 103, 101, 45, 105, 100, 61, 34, 49, 48, 49, 34, 62, 60, 33, 45, 45, 32, 93, 93, 62, 93, 93, 62, 32, 45, 45, 62, 60, 111, 107, 47, 62, 60, 47, 114, 112, 99, 45, 114, 101, 112, 108, 121, 62, 10, 35, 35]
+def r10x : Bytes := [60, 114, 112, 99, 45, 114, 101, 112, 108, 121, 32, 109, 101, 115, 115, 97, 103, 101, 45, 105, 100, 61, 34, 49, 48, 49, 34, 62, 60, 97, 62, 120, 10, 35, 35, 10, 121, 60, 47, 97, 62, 60, 47, 114, 112, 99, 45, 114, 101, 112, 108, 121, 62, 93, 93, 62, 93, 93, 62]
+example : goodReply .v11 ⟨101, r11x, [10]⟩ = true ∧ goodReply .v10 ⟨101, r10x, []⟩ = true := by
+  decide +kernel
+example : (bufStep .v11 [] (r11x ++ [10])).2 = some (101, r11x ++ [10]) := by decide +kernel
+example : (bufStep .v10 [] r10x).2 = some (101, r10x) := by decide +kernel
+example : (bufStepDrop10 [] (r11x ++ [10])).2 = none := by decide +kernel
+
 /-! ## histories: per-call deadlines (timed layer, `Netconf/StoreTimed.lean`) -/
 
 /-- every timed history (calls with their own timeouts, reads, polls, time passing during calls
